@@ -144,7 +144,7 @@ example : (inForce { E := fun _ => 1, off := 0 } (init { thr := 1/2, bf := 3, me
 threshold `t`, the statistic that criterion promises, of the merged summary, is at least `t` -/
 theorem C03_code_accept_sound (expf : Rat → Rat) (c : Crit) (tol t : Rat) (new old nom : Summary) (w w' w'' : W)
     (hn : SumOk new) (ho : SumOk old) (hO : 1 ≤ old.n) (h2 : 2 ≤ new.n)
-    (h : callObj expf (BBGen.get_merge_accept_fn expf (PV.str c.name) (PV.flt (some tol))) (PV.flt (some t))
+    (h : BBGen.MergeAcceptFunction_call expf (BBGen.get_merge_accept_fn expf (PV.str c.name) (PV.flt (some tol))) (PV.flt (some t))
       (PV.arr w new.ls) (PV.int new.n) (PV.arr w' old.ls) (PV.arr w'' nom.ls) (PV.int old.n) (PV.int nom.n)
         = PV.bool true) :
     ∃ v, stat c new = some v ∧ t ≤ v := by
